@@ -250,11 +250,11 @@ def setup_reader(concrete):
 GRACE_TICKS = 6        # envsum.lockbmc.GRACE // TICK
 
 
-def make_bmc(lock_cls, K, depth, rounds, step_delay, hold_bound, crash=False, expect_sat=()):
+def make_bmc(lock_cls, K, depth, rounds, step_delay, hold_bound, crash=False, expect_sat=(), interrupts=False):
     def run():
         from envsum import lockbmc as L
         t0 = time.time()
-        aut = L.extract(lock_cls)
+        aut = L.extract(lock_cls, interrupts=interrupts)
         res = {"queries": 0, "solver_s": 0.0, "states": len(aut["nodes"]), "transitions": sum(len(e) for e in aut["edges"].values()),
                "automaton_paths": aut["paths"], "lock": lock_cls, "K": K, "depth": depth, "rounds": rounds, "samples": []}
         if aut["conflicts"] or not aut["flow_ok"]:
@@ -286,6 +286,8 @@ def make_bmc(lock_cls, K, depth, rounds, step_delay, hold_bound, crash=False, ex
                 res["inconclusive"] = f"{prop}: solver answered {out[prop]}"
         if out["unwinding"] != "unsat":
             res["inconclusive"] = f"unwinding query {out['unwinding']}: a process can leave the extracted automaton within the depth (raise maxcalls)"
+        if interrupts and out.get("witness_interrupted") != "sat":
+            res["inconclusive"] = f"reachability witness {out.get('witness_interrupted')}: no schedule interrupts a waiting process within depth {depth} (vacuity guard)"
         if out["witness_all_done"] != "sat":
             res["inconclusive"] = f"reachability witness {out['witness_all_done']}: no schedule lets every process finish within depth {depth} (vacuity guard)"
         res["traces_validated_against_impl"] = validated
@@ -323,6 +325,9 @@ def obligations(tier):
         obs.append(Obligation(f"lock-bmc-{short}-k2r2", None, None, CODE, custom=make_bmc(cls, 2, 14 if q else 16, 2, 1, 2),
                               bounds=dict(processes=2, rounds=2, macro_steps=14 if q else 16, step_delay_s=5, hold_bound_s=10),
                               describe=f"{cls}: 2 processes x 2 appends (re-acquisition while the other waits)"))
+        obs.append(Obligation(f"lock-bmc-{short}-interrupt", None, None, CODE, custom=make_bmc(cls, 2, 10, 1, 2, 2, interrupts=True),
+                              bounds=dict(processes=2, rounds=1, macro_steps=10, step_delay_s=10, hold_bound_s=10, fault="KeyboardInterrupt raised by time.sleep in a waiting process"),
+                              describe=f"{cls}: a waiting worker interrupted by SIGINT (KeyboardInterrupt out of time.sleep) leaves the other workers' lock alone"))
         obs.append(Obligation(f"lock-bmc-{short}-longhold", None, None, CODE, custom=make_bmc(cls, 2, 16, 2, 1, GRACE_TICKS),
                               bounds=dict(processes=2, rounds=2, macro_steps=16, step_delay_s=5, hold_bound_s=30),
                               describe=f"{cls}: a holder may keep the lock for the whole grace period (30 s) and hand it over at the last moment while "
